@@ -243,6 +243,12 @@ func DeserializeCompiledTemplate(data []byte) (*CompiledTemplate, error) {
 		return compiled, nil
 	}
 
+	// Data that announces the binary format (version byte 1) is not a gob stream:
+	// a gob stream starts with the length of a type definition, never with 1
+	if data[0] == 1 {
+		return nil, err
+	}
+
 	// Fall back to the old gob format if binary deserialization fails
 	// This ensures backward compatibility with previously compiled templates
 	return deserializeGobFormat(data)
